@@ -1,7 +1,11 @@
 """C08 — Cartesian grad/div/curl/laplacian/vector_laplacian equal their textbook definitions."""
 import sys
 from ..world import tie_check
-from ..leangen import GenFile
+from ..leangen import GenFile, Obligation
+from .. import ex as X
+
+STATIC = [('NdeVerif.Proofs.C08', 'NdeVerif.C08', ['gradM_getElem', 'grad_sound', 'lapM_eq_div_grad', 'lapM_eval', 'second_partial_sound', 'lap_sound',
+                                                   'divM_eval', 'div_summand_sound', 'gradM_total', 'lapM_total'])]
 
 PID = 'C08'
 COORDS = ['x', 'y', 'z', 'w']
@@ -20,7 +24,7 @@ def sub(a, b):
 
 def generate(seeds=(1, 2, 3), tier='quick'):
     from neurodiffeq import operators as ops
-    g = GenFile(PID)
+    g = GenFile(PID, imports=['NdeVerif.Proofs.C08'])
     stats = {}
 
     def trace(name, scen):
@@ -55,6 +59,12 @@ def generate(seeds=(1, 2, 3), tier='quick'):
         for i, (dn, t) in enumerate(trees):
             g.thm_eq(f'grad{n}_{i}_eq', cs, cs, dn, t, field(ctx, 'u', n, e(n, i)),
                      what=f'grad in {n}D: component {i} is the partial derivative of u w.r.t. coordinate {i}')
+            ftxt = X.lean_ex(field(ctx, 'u', n, e(n)))
+            idx = '[' + ', '.join(str(j) for j in range(n)) + ']'
+            stmt_ = f'{dn} = (NdeVerif.C08.gradM {ftxt} {idx}).getD {i} (.nat 0)'
+            g.raw(f'theorem grad{n}_{i}_is_model : {stmt_} := rfl\n',
+                  [Obligation(f'grad{n}_{i}_is_model', 'model', stmt_, f'the traced component {i} of grad in {n}D is, term for term, component {i} of the hand model '
+                              'gradM (whose theorems hold in every dimension)')])
 
         def sc_lap(w, n=n, cs=cs):
             xs = [w.coord(c) for c in cs]
@@ -62,6 +72,14 @@ def generate(seeds=(1, 2, 3), tier='quick'):
         ctx, trees = trace(f'lap{n}', sc_lap)
         g.thm_eq(f'lap{n}_eq', cs, cs, trees[0][0], trees[0][1], add(*[field(ctx, 'u', n, e(n, i, i)) for i in range(n)]),
                  what=f'laplacian in {n}D = sum of the unmixed second partials')
+        ftxt = X.lean_ex(field(ctx, 'u', n, e(n)))
+        idx = '[' + ', '.join(str(j) for j in range(n)) + ']'
+        envt = '[' + ', '.join(cs) + ']'
+        stmt_ = f'Ex.eval I (env {envt}) lap{n} = Ex.eval I (env {envt}) (NdeVerif.C08.lapM {ftxt} {idx})'
+        g.raw(f'theorem lap{n}_is_model (I : Interp) ({" ".join(cs)} : ℝ) :\n    {stmt_} := by\n'
+              f'  simp only [lap{n}, NdeVerif.C08.lapM, Ex.eval, Nat.cast_zero, add_zero]\n  try ring\n',
+              [Obligation(f'lap{n}_is_model', 'model', stmt_, f'the traced laplacian in {n}D evaluates as the hand model lapM (lap_sound: sum of second derivatives along '
+                          'every coordinate, in every dimension; lapM_eq_div_grad: = div of grad)')])
 
         def sc_div(w, n=n, cs=cs):
             xs = [w.coord(c) for c in cs]
@@ -70,6 +88,13 @@ def generate(seeds=(1, 2, 3), tier='quick'):
         ctx, trees = trace(f'div{n}', sc_div)
         g.thm_eq(f'div{n}_eq', cs, cs, trees[0][0], trees[0][1], add(*[field(ctx, f'u{i}', n, e(n, i)) for i in range(n)]),
                  what=f'div in {n}D = sum of d u_i / d x_i')
+        ftxts = '[' + ', '.join(X.lean_ex(field(ctx, f'u{i}', n, e(n))) for i in range(n)) + ']'
+        idx = '[' + ', '.join(str(j) for j in range(n)) + ']'
+        envt = '[' + ', '.join(cs) + ']'
+        stmt_ = f'Ex.eval I (env {envt}) div{n} = Ex.eval I (env {envt}) (NdeVerif.C08.divM {ftxts} {idx})'
+        g.raw(f'theorem div{n}_is_model (I : Interp) ({" ".join(cs)} : ℝ) :\n    {stmt_} := by\n'
+              f'  simp only [div{n}, NdeVerif.C08.divM, Ex.eval, Nat.cast_zero, add_zero]\n  try ring\n',
+              [Obligation(f'div{n}_is_model', 'model', stmt_, f'the traced div in {n}D evaluates as the hand model divM')])
 
     # fields that omit coordinates: zero components / terms (the allow_unused -> zeros path)
     def sc_grad_partial(w):
